@@ -275,7 +275,8 @@ def run_leg(op):
             toml_before = tomli.load(f)["current"]
     rec.write({"ev": "leg-start", "input": op["input"],
                "recorded_locked": None if toml_before is None else toml_before.get("locked", []),
-               "recorded_cstep": None if toml_before is None else toml_before.get("cstep")})
+               "recorded_cstep": None if toml_before is None else toml_before.get("cstep"),
+               "recorded_spawned": None if toml_before is None else toml_before.get("spawned")})
 
     def fake_setup_runner(state):
         futs = Futures(state, rec, op.get("policy", "fifo"), op.get("kill_at"), op.get("snap"), op["dir"])
@@ -314,13 +315,14 @@ def run_leg(op):
         return {"ok": False, "error": "setup_config returned None"}
     try:
         sched.scheduler(config)
-        fl = None
+        fl = fc = fs = None
         try:
             with open("restart.toml", "rb") as f:
-                fl = tomli.load(f)["current"].get("locked", [])
+                cur = tomli.load(f)["current"]
+            fl, fc, fs = cur.get("locked", []), cur.get("cstep"), cur.get("spawned")
         except Exception:  # noqa: BLE001
             pass
-        rec.write({"ev": "leg-end", "how": "finished", "final_locked": fl})
+        rec.write({"ev": "leg-end", "how": "finished", "final_locked": fl, "final_cstep": fc, "final_spawned": fs})
         return {"ok": True, "how": "finished"}
     except StopLeg:
         rec.write({"ev": "leg-end", "how": "killed"})
